@@ -50,6 +50,7 @@ type progResult struct {
 	Features   []string    `json:"features"`
 	Types      int         `json:"types"`
 	Values     int         `json:"values"`
+	Defaults   int         `json:"fields_left_at_declared_default"`
 	Encodings  int         `json:"encodings"`
 	Reads      int         `json:"reads"`
 	MissingReq int         `json:"missing_required_cases"`
@@ -294,6 +295,7 @@ func checkProgram(ps progSpec, bt batch) *progResult {
 		}
 	}
 	rng := rand.New(rand.NewSource(bt.Seed ^ ps.Seed))
+	idl.LeaveDefaults = true // every struct here is built by its emitted constructor
 	for _, tc := range cases {
 		res.Types++
 		if notes := gocodec.CheckTags(tc.st, reflect.TypeOf(tc.ctor())); len(notes) > 0 && tc.kind != "args" && tc.kind != "result" {
@@ -314,6 +316,8 @@ func checkProgram(ps progSpec, bt batch) *progResult {
 		}
 	}
 	sort.Strings(res.Unmapped)
+	res.Defaults = idl.LeftAtDefaultCount
+	idl.LeftAtDefaultCount = 0
 	return res
 }
 
